@@ -1226,13 +1226,13 @@ pub fn property() -> Property {
     let mut add = |name: &'static str, run: RunFn, q: Budget, t: Budget, pct: u32| {
         parts.push(Part { name, run, quick: q, thorough: t, min_nontrivial_pct: pct });
     };
-    let (q, t) = rnd(100_000, 2_000_000);
+    let (q, t) = rnd(1_000_000, 10_000_000);
     add("ws", run_ws, q, t, 40);
     add("wm", run_wm, q, t, 40);
     add("tw", run_tw, q, t, 30);
     add("record", run_record, q, t, 40);
     add("san", run_san, q, t, 30);
-    let (q, t) = rnd(20_000, 400_000);
+    let (q, t) = rnd(200_000, 2_000_000);
     add("agg", run_agg, q, t, 25);
     // every arrival order of 5 (quick) / 6 (thorough) events × 3 durations × 2 caps × gap patterns,
     // for two alphabets (A: param = n, B: param = 10 + n)
